@@ -247,6 +247,7 @@ func (h *histCtx) applyOp(op histOp) bool {
 			if !h.faulty {
 				h.viol("write-failed", nameClass(h.nameOf[op.Dag]), "Write failed: %v", err)
 			}
+			simrt.Sleep(time.Millisecond) // (as below)
 			return true
 		}
 		r.acked = h.marker
